@@ -504,6 +504,8 @@ class Normalizer:
                 res = rw.new_local('?residual')
                 B[errb]['st'].append(_use(res, _mv(br, BREAK0), line))
                 B[errb]['term'] = mk_call('<%s as std::ops::FromResidual>::from_residual' % wrap, 'std::ops::FromResidual::from_residual', 'std::ops::FromResidual', wrap, 'from_residual', [_mv(res)], dst, after, span)
+                if item_op['k'] in ('move', 'copy') and not item_op['pl']['p']:
+                    _thread_try(rw, last, item_op['pl']['l'], okb, errb, br, wrap)
                 B[done]['st'].append(_agg(dst, 'std::result::Result::Ok' if wrap.startswith('std::result::Result') else 'std::option::Option::Some', [_mv(coll)], line=line))
                 rw.goto(done, after)
         elif item in ('sum', 'product'):
@@ -605,6 +607,7 @@ class Normalizer:
         res = rw.new_local('?residual')
         B[errb]['st'].append(_use(res, _mv(br, BREAK0), line))
         B[errb]['term'] = mk_call('<%s as std::ops::FromResidual>::from_residual' % dty, 'std::ops::FromResidual::from_residual', 'std::ops::FromResidual', dty, 'from_residual', [_mv(res)], dst, after, span)
+        _thread_try(rw, blk, r, okb, errb, br, wrap)
 
     def _emit_push(self, rw, blk, coll, ck, item_op, span, cont):
         B = rw.blocks; line = (span or {}).get('lo', 0)
@@ -682,6 +685,84 @@ class Normalizer:
 
 class _GiveUp(Exception):
     pass
+
+
+OK_ADT = ('Result::Ok', 'Option::Some', 'ControlFlow::Continue')
+ERR_ADT = ('Result::Err', 'Option::None', 'ControlFlow::Break')
+
+
+def _targets(t):
+    k = t['k']
+    if k in ('goto', 'drop', 'assert'): return [t['t']]
+    if k == 'call': return [t['t']] if t['t'] >= 0 else []
+    if k == 'switch': return [x[1] for x in t['ts']] + [t['else']]
+    return []
+
+
+def _preds(rw, bb):
+    return [i for i, b in enumerate(rw.blocks) if not b['cleanup'] and bb in _targets(b['term'])]
+
+
+def _known_variant(rw, P, r, depth=8):
+    """is local `r` known to hold the Ok-like / Err-like variant at the end of block P?"""
+    for st in reversed(rw.blocks[P]['st']):
+        if 'dst' in st and st['dst']['l'] == r:
+            if st['dst']['p']: return None
+            rv = st['rv']
+            if rv['k'] == 'agg':
+                if rv['adt'].endswith(OK_ADT): return 'ok'
+                if rv['adt'].endswith(ERR_ADT): return 'err'
+            return None
+    if depth == 0: return None
+    ps = _preds(rw, P)
+    if len(ps) != 1: return None
+    t = rw.blocks[ps[0]]['term']
+    if t['k'] == 'call':
+        if t['dst']['l'] == r:
+            if t['dst']['p']: return None
+            return 'err' if (t.get('ri') or {}).get('item') == 'from_residual' else None
+        return _known_variant(rw, ps[0], r, depth - 1)
+    if t['k'] in ('goto', 'drop'): return _known_variant(rw, ps[0], r, depth - 1)
+    return None
+
+
+def _thread_try(rw, blk, src_local, okb, errb, br, wrap):
+    """blk ends in `br = Try::branch(X)`; predecessors that are known to deliver Ok / Err jump straight
+    to the right arm (keeps the `?` of a spliced closure path-sensitive)."""
+    ok_ctor = 'std::ops::ControlFlow::Continue'; err_ctor = 'std::ops::ControlFlow::Break'
+    okproj = [{'dc': 'Some'}, {'f': '0', 'of': 'std::option::Option::Some'}] if wrap.strip().startswith('std::option::Option') else \
+             [{'dc': 'Ok'}, {'f': '0', 'of': 'std::result::Result::Ok'}]
+    t = rw.blocks[blk]['term']
+    X = t['args'][0]['pl']['l']
+
+    def visit(P, tail_st, depth):
+        """P jumps (goto) to a block whose remaining statements are tail_st and which then branches"""
+        if rw.blocks[P]['term']['k'] != 'goto': return
+        kv = _known_variant(rw, P, src_local)
+        if kv is None:
+            # a merge block of the spliced closure (several returns joined): look through it
+            ps = _preds(rw, P)
+            if depth > 0 and len(ps) > 1 and not any('dst' in st and st['dst']['l'] == src_local for st in rw.blocks[P]['st']):
+                for PP in ps:
+                    visit_through(PP, P, copy.deepcopy(rw.blocks[P]['st']) + tail_st, depth - 1)
+            return
+        st = copy.deepcopy(tail_st)
+        if kv == 'ok':
+            st.append(_agg(br, ok_ctor, [_mv(X, okproj)]))
+            n = rw.new_block(st, {'k': 'goto', 't': okb})
+        else:
+            st.append(_agg(br, err_ctor, [_mv(X)]))
+            n = rw.new_block(st, {'k': 'goto', 't': errb})
+        rw.blocks[P]['term'] = {'k': 'goto', 't': n}
+
+    def visit_through(PP, P, tail_st, depth):
+        tt = rw.blocks[PP]['term']
+        if tt['k'] != 'goto' or tt['t'] != P: return
+        # give PP a private copy of the merge block so that it can be redirected on its own
+        visit(PP, tail_st, depth)
+
+    for P in _preds(rw, blk):
+        visit(P, copy.deepcopy(rw.blocks[blk]['st']), 3)
 
 
 def _deref_place(pl):
